@@ -37,8 +37,14 @@ NOTE = ("consensus engine simulated at the ABCI boundary per Tendermint 0.34; hi
         "predicates exact (256-bit arithmetic in BigNat.tla); harness projections trusted, cross-checked by the Query path")
 
 
-def app(text, ref, level="exploration"):
-    return (level, "TLA+ trace validation: " + TRACE, text, NOTE, ref)
+MC = (" Design level: RigoCore.tla (the application as a function of its state) is model-checked in its consensus environment "
+      "(MC_Rigo.tla; bounded configurations MC_Value / MC_Stake / MC_Gov) with the invariant that no clause of any property is violated by any step; "
+      "the judging operators are the same ones that judge the recorded traces.")
+
+
+def app(text, ref, level="model_checking"):
+    return (level, "TLA+ spec RigoCore.tla model-checked with TLC (bounded) + TLA+ trace validation: " + TRACE, text + MC,
+            NOTE + "; model checking is small-scope (2-4 accounts, 1-3 validators, 3-7 blocks, 1-2 transactions per block)", ref)
 
 
 CLAIMED.update({
